@@ -144,6 +144,11 @@ def cmd_check(prop, tier, master, runs, workers, wall, out, write_evidence=True)
     out.flush()
     _quiet_stdout()
     sys.setrecursionlimit(400)
+    rdir = os.path.join(VERIF_DIR, "replays")
+    if os.path.isdir(rdir):
+        for fn in os.listdir(rdir):
+            if fn.startswith(prop + "-"):
+                os.remove(os.path.join(rdir, fn))
     total = kernel.explore(prop, tier, master, params["runs"], workers, params["wall"],
                            chunk=params.get("chunk", 100), log=lambda m: (out.write(m + "\n"), out.flush()))
     if total["harness_errors"]:
